@@ -117,7 +117,7 @@ class Prop:
         for g in groups:
             alts = g["alts"]
             if quick and g["n"] == 3:
-                alts = [a for i, a in enumerate(alts) if (a[0] not in BULK and i % 2 == 0) or i % 3 == 0]
+                alts = [a for i, a in enumerate(alts) if (a[0] not in BULK and i % 2 == 0) or i % 4 == 0]
             if not quick and g["n"] == 4:
                 alts = [a for i, a in enumerate(alts) if (a[0] not in BULK and i % 2 == 0) or i % 5 == 0]
             for i in range(0, len(alts), CHUNK):
@@ -179,7 +179,7 @@ class Prop:
                         continue
                     yield dict(kind="probe", univ=st[0], setup=st[1], typed=ty, label=lname + ("/typed" if ty else ""))
         # (e) random histories
-        nrand = 16 if quick else 160
+        nrand = 12 if quick else 160
         for i in range(nrand):
             n_ops = rng.randint(8, 25 if quick else 40)
             h = (mut.gen_malformed if i % 2 == 0 else mut.gen_random)(rng, n_ops)
